@@ -61,6 +61,27 @@ func genPlanC17(rt *rapid.T, real bool) *Plan {
 		p.DrainUs = 30_000
 	}
 	p.Group = rapid.IntRange(0, 2).Draw(rt, "group") == 0
+	if rapid.IntRange(0, 5).Draw(rt, "long-life") == 0 {
+		// a client that has been running for a while: the application keeps pace for `pre` telegrams (just below a
+		// multiple of 256: counters that live as long as the client wrap there), then stalls while a burst arrives
+		pre := rapid.SampledFrom([]int{120, 250, 253, 254, 255, 256, 506, 510}).Draw(rt, "pre") + rapid.IntRange(-2, 2).Draw(rt, "pre-jitter")
+		tag := 1
+		for i := 0; i < pre; i++ {
+			p.Gw = append(p.Gw, GwStep{AfterUs: 211, Kind: "req", Chan: "cur", Seq: "exp", Tag: tag})
+			tag++
+		}
+		n := rapid.IntRange(3, 24).Draw(rt, "late-burst")
+		for i := 0; i < n; i++ {
+			g := GwStep{Kind: "req", Chan: "cur", Seq: "exp", Tag: tag, AfterUs: rapid.SampledFrom([]int{0, 0, 0, 1, 30}).Draw(rt, "late-gap")}
+			if i == 0 {
+				g.AfterUs = 3000
+			}
+			tag++
+			p.Gw = append(p.Gw, g)
+		}
+		p.Consumer = []ConStep{{AfterUs: 57, Kind: "read", N: pre, WithinUs: 2500}}
+		return p
+	}
 	bursts := rapid.IntRange(1, 4).Draw(rt, "bursts")
 	tag := 1
 	total := 0
